@@ -1190,12 +1190,144 @@ Theorem membership_change_run_B_nonvacuous :
 Proof. exact membership_change_run_B. Qed.
 Print Assumptions membership_change_run_B_nonvacuous.
 
+(* ---------------------------------------------------------------- round 9: membership changes AND snapshots in one alphabet *)
+From BLB Require Import Raft.SnapConfTrack Raft.SnapConfRun Raft.CombinedExample.
+
+(* [PARTIAL] combined alphabet, node level, invariant (a) with snapshots: for every event (Bootstrap, Deliver of any message including
+   InstallSnap, Tick, Propose, AddNode, RemoveNode, SnapshotDone, Restart) and every crash point, if the log is contiguous with the
+   snapshot and the configuration the node uses is the one its durable state determines (membership stored in the snapshot metadata,
+   then the last configuration entry above the snapshot index), the same holds afterwards.  Restrictions, exactly evK: delivered
+   AppEnts batches have consecutive indices; proposals carry no configuration entries; a SnapshotDone metadata m satisfies
+   snap_conf_ok (recording m leaves the logical configuration equal to the one in use, which is what raft.go guarantees because a
+   snapshot covers only applied entries and carries the membership of the covered prefix); an InstallSnap needs the same only when
+   the follower log already holds the snapshot's last entry, otherwise the follower adopts the snapshot membership.  The truncation
+   by a conflicting AppEnts is shown to start above the snapshot index.  PARTIAL for C02: this is invariant (a) of the round 7
+   induction over logical logs; the four clauses over the combined alphabet are not derived from it, see NOT YET PROVED *)
+Theorem combined_alphabet_configuration_tracks_logical_log_partial :
+  forall s ev k crashed st s',
+    conf_logical s -> evK s ev ->
+    run_event_crash (settle s) ev k = Ret (crashed, st, s') -> conf_logical s'.
+Proof. exact conf_tracks_logical_step. Qed.
+Print Assumptions combined_alphabet_configuration_tracks_logical_log_partial.
+
+(* [PARTIAL] combined alphabet, run level: along every run of the annotated system astep (unrestricted events: membership changes,
+   snapshots, InstallSnap traffic, restarts, crash points) whose steps satisfy evK at the node they run on, from a state in which
+   every node satisfies conf_logical, every node of every reachable state has a log contiguous with its snapshot and uses exactly
+   the configuration determined by its snapshot membership and the configuration entries above the snapshot index.  PARTIAL: the
+   side conditions evK are hypotheses on the run, and the four clauses are not concluded *)
+Theorem combined_alphabet_configuration_invariant_run_partial :
+  forall (a0 a : asys) (sched : list sys_event),
+    all_conf_logical a0 -> run asys sys_event kstep a0 sched a ->
+    forall i s, get_node i (sy_nodes (fst a)) = Some s ->
+      contig (n_p s) /\ n_conf s = init_latest_conf (n_p s).
+Proof. exact conf_tracks_logical_sys. Qed.
+Print Assumptions combined_alphabet_configuration_invariant_run_partial.
+
+(* [FULL] non-vacuity for the combined alphabet, one run of kstep (astep plus evK at every step) from an initial state: 10 events to
+   node 1 leader of term 2 under 1, 2; AddNode 3 committed; SnapshotDone on the leader through index 3 with the membership 1, 2, 3,
+   which trims its whole log; the heartbeat sends InstallSnap to the lagging node 3 (empty log, no snapshot), which installs it and
+   holds the members 1, 2, 3 from the snapshot metadata; RemoveNode 2 is appended as entry 4 above the snapshot, replicated to node 3
+   and committed by the quorum of 1, 3.  Checked on the run: the premise adjP and with it election safety (theorem
+   election_safety_all_membership_changes_partial, whose alphabet astep contains the snapshot events), the peer tables of leaders
+   (invariant (d)), the round 9 configuration invariant on the final state, and the final views: nodes 1 and 3 hold the same entry 4
+   above the same snapshot (3, term 2), node 2 still holds entries 1 to 3 whose last (3, term 2) agrees with that snapshot *)
+Theorem combined_run_add_snapshot_remove_nonvacuous :
+  ainit A0 /\ all_conf_logical A0 /\ run asys sys_event kstep A0 schedC C20 /\
+  In (1, EAddNode 3 77, 0) schedC /\ In (1, ESnapDone sm3, 0) schedC /\ In (3, EDeliver q15, 0) schedC /\
+  In (1, ERemoveNode 2, 0) schedC /\
+  (body_kind q15, m_from q15, m_to q15) = (5, 1, 3) /\
+  cview C15 =
+    [(1, Leader, 2, [1; 2; 3], 3, [], Some (3, 2, [1; 2; 3]));
+     (2, Follower, 2, [1; 2; 3], 2, [(1, 1); (2, 2); (3, 2)], None);
+     (3, Follower, 0, [], 0, [], None)] /\
+  cview C16 =
+    [(1, Leader, 2, [1; 2; 3], 3, [], Some (3, 2, [1; 2; 3]));
+     (2, Follower, 2, [1; 2; 3], 2, [(1, 1); (2, 2); (3, 2)], None);
+     (3, Follower, 2, [1; 2; 3], 3, [], Some (3, 2, [1; 2; 3]))] /\
+  cview C20 =
+    [(1, Leader, 2, [1; 3], 4, [(4, 2)], Some (3, 2, [1; 2; 3]));
+     (2, Follower, 2, [1; 2; 3], 2, [(1, 1); (2, 2); (3, 2)], None);
+     (3, Follower, 2, [1; 3], 3, [(4, 2)], Some (3, 2, [1; 2; 3]))] /\
+  ec_view (snd C20) = [(2, 1, [1; 2])] /\ adjP (snd C20) /\
+  (forall t x y, In (t, x) (sy_hist (fst C20)) -> In (t, y) (sy_hist (fst C20)) -> x = y) /\
+  (forall i s, get_node i (sy_nodes (fst C20)) = Some s -> n_role s = Leader ->
+     forall id, In id (peer_ids s) <-> (memb_of s id /\ id <> n_id s)) /\
+  (forall i s, get_node i (sy_nodes (fst C20)) = Some s ->
+     contig (n_p s) /\ n_conf s = init_latest_conf (n_p s)).
+Proof. exact combined_run_add_snapshot_remove. Qed.
+Print Assumptions combined_run_add_snapshot_remove_nonvacuous.
+
+(* ---------------------------------------------------------------- round 9: the leader loop contract on states with snapshots *)
+From BLB Require Import Raft.LeaderSuffixS Raft.LeaderSuffixSExample.
+
+(* [FULL] leader_commits_own_suffix with the start hypothesis lifted to states with snapshots: the start state s0 is a leader whose log is
+   contiguous with its snapshot (contig, reachable-state invariant log_snapshot_contiguous), whose snapshot index is at most its
+   commit index (reachable-state invariant of the snapshot rounds) and whose commit index equals its last index; the log may be
+   trimmed, even to nothing.  Loop, events (Deliver of any message, Tick, Propose of any batch, Bootstrap, each completed without
+   crash and leaving the node leader of the same term) and the lists lp_prop, lp_comm are those of leader_commits_own_suffix: after
+   every further event lp_comm followed by the newly returned entries is a prefix of lp_prop including the batch proposed by
+   that event.  AddNode, RemoveNode, SnapshotDone and Restart inside the loop stay outside *)
+Theorem leader_commits_own_suffix_with_snapshots :
+  forall s0 evs st1 ev st2,
+    loop_start_snap s0 -> loop_run {| lp_node := s0; lp_prop := []; lp_comm := [] |} evs st1 -> loop_step st1 ev st2 ->
+    lp_comm st2 = lp_comm st1 ++ n_commits (lp_node st2) /\
+    lp_prop st2 = lp_prop st1 ++ proposed_by (lp_node st1) ev /\
+    Raft.LeaderSuffix.prefix (lp_comm st1 ++ n_commits (lp_node st2)) (lp_prop st2).
+Proof. exact leader_commits_own_suffix_snap_stepwise. Qed.
+Print Assumptions leader_commits_own_suffix_with_snapshots.
+
+(* [FULL] the same as a loop invariant with the exact lists, b being the index just below the first physical entry of the start log (the
+   snapshot index when the log is trimmed to nothing): the node stays leader of the same term, lp_prop is the physical log beyond
+   the commit index of the loop start and lp_comm the segment between that commit index and the current one *)
+Theorem leader_commits_own_suffix_with_snapshots_invariant :
+  forall s0 evs st,
+    loop_start_snap s0 -> loop_run {| lp_node := s0; lp_prop := []; lp_comm := [] |} evs st ->
+    let b := base_of (n_p s0) in
+    let c0 := n_commit s0 in
+    let s := lp_node st in
+    n_role s = Leader /\ p_term (n_p s) = p_term (n_p s0) /\ c0 <= n_commit s /\ n_commit s <= b + lenS (n_p s) /\
+    lp_prop st = skipn (N.to_nat (c0 - b)) (p_log (n_p s)) /\
+    lp_comm st = seg (c0 - b) (n_commit s - b) (p_log (n_p s)).
+Proof. exact leader_loop_invariant_snap. Qed.
+Print Assumptions leader_commits_own_suffix_with_snapshots_invariant.
+
+(* [FULL] the same in terms of the commands given to core.Propose, and the start condition of leader_commits_own_suffix is the special case
+   without snapshot *)
+Theorem leader_commits_own_suffix_with_snapshots_commands :
+  (forall s0 evs st,
+     loop_start_snap s0 -> loop_run {| lp_node := s0; lp_prop := []; lp_comm := [] |} evs st ->
+     Raft.LeaderSuffix.prefix (map cmd_of (lp_comm st)) (map cmd_of (batches evs))) /\
+  (forall s0, loop_start s0 -> loop_start_snap s0).
+Proof. exact (conj leader_commits_own_suffix_snap_cmds loop_start_is_snap). Qed.
+Print Assumptions leader_commits_own_suffix_with_snapshots_commands.
+
+(* [FULL] non-vacuity: node 1 of the combined run at C17, leader of term 2 with an empty physical log behind the snapshot of index 3
+   and commit index 3, satisfies the lifted start condition and not the old one; it proposes one command, ticks and receives the
+   acknowledgement of node 3, which had installed the snapshot; the committed list is the one entry of index 4, equal to the
+   proposed list *)
+Theorem leader_commits_own_suffix_with_snapshots_nonvacuous :
+  exists s0 evs st,
+    loop_start_snap s0 /\ ~ loop_start s0 /\
+    p_log (n_p s0) = [] /\ option_map sn_index (p_snap (n_p s0)) = Some 3 /\ n_commit s0 = 3 /\
+    loop_run {| lp_node := s0; lp_prop := []; lp_comm := [] |} evs st /\
+    lp_comm st = [{| e_term := 2; e_index := 4; e_type := EntryNormal; e_pl := [43%Z] |}] /\
+    lp_prop st = lp_comm st /\ length evs = 3%nat.
+Proof. exact leader_suffix_snap_nonvacuous. Qed.
+Print Assumptions leader_commits_own_suffix_with_snapshots_nonvacuous.
+
 (* NOT YET PROVED (statements kept visible; listed in props/C02.json not_yet_proved):
-   the combination of membership changes WITH snapshots: the four clauses hold for fixed membership with snapshots
-   (round 5, alphabet sstepS) and for arbitrary single-server membership changes without snapshots (round 8, alphabet
-   mstepS); one alphabet with both (SnapshotDone, InstallSnapshot traffic and AddNode / RemoveNode) is not proved: the
-   virtual-node view of round 5 would have to carry the configuration of the covered prefix (snapshot configuration) through
-   invariant (a), and the per-configuration commit invariant through an installed snapshot.  Side conditions of mstepS that are
-   not hypotheses of raft.go: proposals carry no configuration entries (raft.go proposes them only through AddNode /
-   RemoveNode), nobody asks a node to add itself, one bootstrap membership without duplicates.
-   On the real code all four clauses are evaluated after every event by the monitors of the Go simulation. *)
+   the four clauses over the COMBINED alphabet (membership changes AND snapshots in one run).  They hold for fixed membership
+   with snapshots (round 5, alphabet sstepS) and for arbitrary single-server membership changes without snapshots (round 8,
+   alphabet mstepS).  Over the combined alphabet round 9 proves: invariant (a) over logical logs
+   (combined_alphabet_configuration_tracks_logical_log_partial and its run-level form, under the side conditions evK), and the
+   theorems whose alphabet astep already contains the snapshot events: election safety GIVEN the premise adjP
+   (election_safety_all_membership_changes_partial), counted_votes_come_from_members, leader_acks_come_from_members.
+   OPEN: the premise adjP itself (two configurations of adjacent elections differ by at most one member), leader completeness,
+   log matching and state machine safety over the combined alphabet.  What is missing is the re-run of the node passes of
+   rounds 6 to 8 (ginvM, ackinvM, voteinvM, commit evidence ms_cm) on the virtual nodes of round 5 (covered prefix plus physical
+   log), with the snapshot configuration standing for the configuration entries of the covered prefix, and the discharge of
+   snap_conf_ok for SnapshotDone from the fact that the state machine snapshots only applied entries.
+   Side conditions of mstepS that are not hypotheses of raft.go: proposals carry no configuration entries (raft.go proposes them
+   only through AddNode / RemoveNode), nobody asks a node to add itself, one bootstrap membership without duplicates.
+   On the real code all four clauses are evaluated after every event by the monitors of the Go simulation, whose random
+   schedules mix snapshots, trims, AddNode and RemoveNode. *)
